@@ -206,6 +206,12 @@ def _traverse(x, y, path_cost, bab, fol):
     branch_lb = path_cost + sub_lb
     if xcore == fol.false:
         assert core_lb == 0, core_lb
+        # a leaf improves the search only if it costs less
+        # than the best cover known so far
+        if branch_lb >= bab.upper_bound:
+            log.info('terminal case, not an improvement\n'
+                     '==== traverse ====\n')
+            return None, sub_lb
         bab.upper_bound = branch_lb
         log.info('terminal case (empty cyclic core)\n'
                  '==== traverse ====\n')
